@@ -54,10 +54,8 @@ class InstantiatedGlobalFunction(parser.GlobalFunction):
     def to_cpp(self):
         """Generate the C++ code for wrapping."""
         if self.original.template:
-            instantiated_names = [
-                "::".join(inst.namespaces + [inst.instantiated_name()])
-                for inst in self.instantiations
-            ]
+            # The template arguments as C++ types, e.g. `std::vector<double>`.
+            instantiated_names = [inst.to_cpp() for inst in self.instantiations]
             ret = "{}<{}>".format(self.original.name,
                                   ",".join(instantiated_names))
         else:
